@@ -19,9 +19,12 @@ from c13_fv import PV
 
 
 class SXF(SX):
-    def __init__(self, mod, fi_ranges=None, **kw):
+    def __init__(self, mod, fi_ranges=None, cstr_end=None, **kw):
         SX.__init__(self, mod, **kw)
         self.fi_ranges = fi_ranges or {}
+        self.cstr_end = cstr_end or {}      # local object (alloca id) -> largest terminator index proved by c13_fi
+        self.value_arg = 2
+        self.sign_insts = set()
         self.reads = {}          # loop key -> dict(ok, detail, where, n)
 
     # (a) pair relations between loop-head variables
@@ -44,7 +47,23 @@ class SXF(SX):
             p = st.env.get(i.ops[1].key()) if i.ops[1].k in ('inst', 'arg') else None
             if isinstance(p, P) and p.base[0] == 'a':
                 st.notes = st.notes + (('dot', p.base, p.off),)
-        return SX.exec_inst(self, fn, i, st)
+        out = SX.exec_inst(self, fn, i, st)
+        if i.op == 'bitcast' and i.ty.get('k') == 'int' and from_value_param(fn, i.ops[0], self.value_arg):
+            # the sign test of the argument: its symbol must survive until the layout is judged
+            self.sign_insts.add((fn.name, i.id))
+            for s2 in out:
+                v = s2.env.get(('i', i.id))
+                if isinstance(v, Lin) and len(v.t) == 1:
+                    s2.pins = s2.pins | frozenset(v.t.keys())
+        elif i.op == 'call' and i.callee == 'strlen':
+            for s2 in out:
+                p = s2.env.get(i.ops[0].key()) if i.ops[0].k in ('inst', 'arg') else None
+                r = s2.env.get(('i', i.id))
+                if isinstance(p, P) and p.base[0] == 'a' and isinstance(r, Lin):
+                    e = self.cstr_end.get(p.base[2])
+                    if e is not None and e < (1 << 30):
+                        s2.cons.add_le(p.off + r, e)     # the text ends at or before the terminator c13_fi located
+        return out
 
     # (c) reads of the emission loops
     def assume_fi(self, fn, st):
@@ -80,11 +99,29 @@ class SXF(SX):
         return SX.finish_countdown(self, fn, info, st, c0, inits)
 
 
-def run_family(mod, T, fname, triple, fi_ranges):
+def from_value_param(fn, v, argno, depth=0, seen=None):
+    """v is the float parameter argno, possibly narrowed / widened / selected against constants"""
+    seen = seen if seen is not None else set()
+    if v.k == 'arg':
+        return v.argno == argno
+    if v.k != 'inst' or depth > 10 or v.id in seen:
+        return False
+    seen.add(v.id)
+    i = fn.insts[v.id]
+    if i.op in ('fpext', 'fptrunc', 'freeze'):
+        return from_value_param(fn, i.ops[0], argno, depth + 1, seen)
+    if i.op == 'select':
+        return any(from_value_param(fn, o, argno, depth + 1, seen) for o in i.ops[1:])
+    if i.op == 'phi':
+        return any(from_value_param(fn, o, argno, depth + 1, seen) for o in i.ops)
+    return False
+
+
+def run_family(mod, T, fname, triple, fi_ranges, cstr_end=None):
     """symbolic execution of the routine for one (base, exponent form, shortest form) context"""
     f = mod.fn(fname)
     emitters = emitter_functions(mod)
-    sx = SXF(mod, fi_ranges=fi_ranges, handler_arg=0, inline=[n for n in emitters if n != fname], bit_args=['ops'])
+    sx = SXF(mod, fi_ranges=fi_ranges, cstr_end=cstr_end, handler_arg=0, inline=[n for n in emitters if n != fname], bit_args=['ops'])
     w, p = Lin.sym('w'), Lin.sym('p')
     base, we, sh = triple
     args = [P(('fn', 'handler')), P(('arg', 1)), Fv(None), w, p, Lin.sym('ops'), Lin(base), Lin(we), Lin(sh)]
@@ -119,7 +156,7 @@ def sign_symbol(sx, st):
     """the opaque symbol of `sign bit of the value` that this path decided on, if any"""
     found = []
     for desc, n in sx.intern.items():
-        if desc and desc[0] == 'bitcast':
+        if desc and desc[0] == 'bitcast' and (desc[2], desc[3]) in sx.sign_insts:
             q = Lin.sym('q%d' % n)
             if st.cons.entails_lt(q, 0):
                 found.append((q, True))
